@@ -64,7 +64,7 @@ func checkC18(c *Ctx) {
 	a.r3()
 	a.r4()
 	a.passBarrier()
-	c.Rule("C18.R7", "model evaluation of the sequential semantics on model documents (shared nodes, relations of ways, nodes and relations, a chain three deep, a cycle, a dangling reference) with the package's own KeepTags and KeepAll: Filter returns exactly the selected objects and what they reference, transitively, whichever way maps are walked, is idempotent, and Check accepts the result; the per-object functions driven through the pass protocol in file order, reverse order and an interleaved order reach the same least closed set")
+	c.Rule("C18.R7", "model evaluation of the sequential semantics on model documents (shared nodes, relations of ways, nodes and relations, a chain three deep, a cycle, a dangling reference) with the package's own KeepTags and KeepAll: Filter returns exactly the selected objects and what they reference, transitively, whichever way maps are walked, is idempotent, and Check accepts the result; the per-object functions driven through the pass protocol in file order, reverse order and an interleaved order reach the same least closed set; the extraction loop itself under one sequential schedule, with the pool sized for 2 processors (1 and 3 in file order); mutexes keep their state (a release of what is not held is fatal)")
 	c18model(c, "C18.R7")
 	c.Floor("C18.R7", 16)
 	c.Floor("C18.R6", 2)
